@@ -33,6 +33,14 @@ pub fn run(ctx: &Ctx, out: &mut CaseOut) {
     let prop_coinductive = (ctx.k / 6) % 3 == 2;
     let prog = if propositional { gen_propositional(&mut r, prop_coinductive) } else { gen_program(&mut r, &cfg) };
     let prop_goals = if propositional { gen_propositional_goals(&mut r, &prog, 10, !prop_coinductive) } else { vec![] };
+    // every 7th case: the multi-answer fragment
+    let multi = ctx.k % 7 == 6 && !propositional;
+    let (prog, multi_goals) = if multi {
+        let (p, g) = gen_multi_answer(&mut r);
+        (p, g)
+    } else {
+        (prog, vec![])
+    };
     let text = program_text(&prog);
     let loaded: Vec<_> = both().iter().filter_map(|c| load(&text, *c, false).ok().map(|l| (*c, l))).collect();
     if loaded.len() != 2 {
@@ -43,7 +51,13 @@ pub fn run(ctx: &Ctx, out: &mut CaseOut) {
     let ngoals = 10;
     for gi in 0..ngoals {
         let gcfg = GoalCfg { closed_only: gi % 3 == 0, allow_not: true, allow_eq: true, need_exists: gi % 3 == 1 };
-        let (goal, exs) = if propositional { (prop_goals[gi].clone(), vec![]) } else { gen_goal(&mut r, &prog, &gcfg) };
+        let (goal, exs) = if propositional {
+            (prop_goals[gi].clone(), vec![])
+        } else if multi {
+            multi_goals[gi % multi_goals.len()].clone()
+        } else {
+            gen_goal(&mut r, &prog, &gcfg)
+        };
         let gtext = goal_text(&goal);
         let mut phs = vec![];
         collect_phs(&goal, &mut phs);
